@@ -109,6 +109,9 @@ class RoDomain(FlowDomain):
 
 def run(ctx, rep):
     f = ctx.lib
+    from . import span
+    rep.rule('C10.6', 'copy-on-write of a compressed cluster releases exactly the clusters the old extent touches')
+    span.release_rule(f, rep, 'C10.6')
     P = Program(f)
     rep.explanation = (
         'C10 is decided in part: guarded reachability of every primary modifying effect from every public method, '
